@@ -94,7 +94,7 @@ class CallGraph:
             for x in v:
                 self._fn_values(x, out)
 
-    def reachable(self, roots, stop=()):
+    def reachable(self, roots, stop=(), fn_values=None):
         """(workspace bodies reachable, external callees reached, has_indirect_calls).
         Call edges and closure creations are always followed.  Function *values* (fn pointers in constants or operands) are
         followed only once an indirect call is reachable: then every fn value referenced from the reachable set, and every
@@ -122,7 +122,10 @@ class CallGraph:
                     else:
                         ext.setdefault(e, set()).add(n)
             if indirect:
-                more = [x for x in (refs_pending | self.addr_taken) if x in self.prog.bodies and x not in seen and x not in stop]
+                # fn_values: the caller knows the table the reachable indirect calls go through (it must then check that no other
+                # function of the result has an indirect call)
+                pool = (refs_pending | self.addr_taken) if fn_values is None else (refs_pending | set(fn_values))
+                more = [x for x in pool if x in self.prog.bodies and x not in seen and x not in stop]
                 if more:
                     stack.extend(more)
                     continue
